@@ -345,16 +345,17 @@ Section Wake.
      behind open gates, the task has woken itself -- provided the request-body gate was not the
      closed one when poll_request ran at the top of the poll (payload not Paused). *)
   Theorem no_lost_decode_wake x r x' :
-    c_fix21 c = true -> 0 < c_maxb c ->
+    c_fix28 c = false -> c_fix21 c = true -> 0 < c_maxb c ->
     shut x = false -> cpl (m x) <> Some 0 -> Forall pos_head (todo x) ->
     poll c F x r = (x', PPend) -> bad x' = false ->
     need_read_status (m (at_poll_request x r)) <> Some PPause ->
     stall_source c x' = true -> o_wake x' = true.
   Proof.
-    intros Hfix Hmaxb Hshut Hcpl Hpos Hpoll Hbad Hnp Hstall.
+    intros H28 Hfix Hmaxb Hshut Hcpl Hpos Hpoll Hbad Hnp Hstall.
     unfold poll in Hpoll. fold (env x r) in Hpoll.
     change (shut (env x r)) with (shut x) in Hpoll. rewrite Hshut in Hpoll.
     unfold at_poll_request in Hnp. unfold poll_normal in Hpoll.
+    destruct (c_fix28 c); [discriminate H28|]. cbv beta iota in Hpoll.
     pose proof (read_available_same0 (env x r)) as S0.
     destruct (read_available_c c (env x r)) as [x1 sd]. cbn [fst] in S0, Hnp.
     destruct S0 as (C1&T1&Sh1&_).
@@ -457,10 +458,16 @@ Section WF.
         eapply P3_trans; [|apply do_eof_P3]. apply same_P3.
         apply same_ext with (y := x2); [apply same_refl|reflexivity..]. }
       destruct (resp_flush_loop_P3 c F F x3) as [P34 _].
-      destruct (resp_flush_loop c F F x3) as [x4 fail]. cbn [fst] in P34.
-      assert (P14 : P3 c x1 x4) by (eapply P3_trans; [exact P12|eapply P3_trans; [exact P23|exact P34]]).
+      destruct (resp_flush_loop c F F x3) as [x4r fail]. cbn [fst] in P34.
+      set (x4 := if c_fix28 c then (if rd_disc (m x4r) then x4r else do_ev c EvNeedRead x4r) else x4r) in *.
+      assert (P44 : P3 c x4r x4).
+      { apply same_P3. unfold x4. destruct (c_fix28 c); [|apply same_refl].
+        destruct (rd_disc (m x4r)); [apply same_refl|apply same_do_ev; reflexivity]. }
+      assert (P14r : P3 c x1 x4r) by (eapply P3_trans; [exact P12|eapply P3_trans; [exact P23|exact P34]]).
+      assert (P14 : P3 c x1 x4) by (eapply P3_trans; [exact P14r|exact P44]).
       destruct P14 as (_&HG4&HP4&_). specialize (HG4 G1). specialize (HP4 P1).
-      destruct fail as [rr|]; [inversion Hpoll; subst; auto|].
+      destruct fail as [rr|].
+      { destruct P14r as (_&A&B&_). inversion Hpoll; subst; auto. }
       set (none := match state (m x4) with SNone => true | _ => false end) in *.
       set (x5 := if rd_disc (m x4) && none then set_shut_err true (err x4) x4 else x4) in *.
       assert (G5 : G x5 /\ Forall pos_head (todo x5)).
@@ -582,6 +589,10 @@ Section Term.
     split; [lia|]. split; [exact Le|]. intro A. apply Hlt; [exact A|lia].
   Qed.
 
+  Lemma fix28_id y : rd_disc (m y) = true ->
+    (if c_fix28 c then (if rd_disc (m y) then y else do_ev c EvNeedRead y) else y) = y.
+  Proof. intro H. rewrite H. destruct (c_fix28 c); reflexivity. Qed.
+
   Lemma tail_poll x r :
     (1 <= F)%nat -> Tail x -> acc_round r || idle_round r = true ->
     let '(x', p) := poll c F x r in
@@ -618,9 +629,10 @@ Section Term.
       destruct S as ((a&b&d&e&g) & Fy & Wy & Le & Hres & Hlt). rewrite M0 in *.
       assert (N5 : forall z, m z = m y -> match state (m z) with SNone => true | _ => false end = true)
         by (intros z Ez; rewrite Ez, b, H2; reflexivity).
+      assert (Ry : rd_disc (m y) = true) by (rewrite a; exact H1).
       destruct Hres as [[-> Wz]|(-> & Hpos & Wy')].
       + (* flushed completely: the epilogue re-enters through the shutdown branch *)
-        cbn [fst snd]. rewrite (N5 y eq_refl), a, H1. cbn [andb].
+        cbn [fst snd]. rewrite !(fix28_id y Ry). rewrite (N5 y eq_refl), a, H1. cbn [andb].
         set (x5 := set_shut_err true (err y) y).
         assert (M5 : m x5 = m y) by reflexivity. rewrite M5.
         assert (Z : wb (m y) =? 0 = true) by (clear - Wz; lia). rewrite Z.
@@ -632,7 +644,7 @@ Section Term.
         pose proof (shutdown_branch_tail x5 R5 S5' Q5 E5 Fy Wy) as S.
         destruct (poll_shutdown_branch c x5) as [x' p]. change (m x5) with (m y) in S.
         destruct S as [S|(_&_&S3&_)]; [left; exact S|exfalso; clear - S3 Wz; lia].
-      + cbn [fst snd]. rewrite (N5 y eq_refl), a, H1. cbn [andb].
+      + cbn [fst snd]. rewrite !(fix28_id y Ry). rewrite (N5 y eq_refl), a, H1. cbn [andb].
         set (x5 := set_shut_err true (err y) y).
         assert (M5 : m x5 = m y) by reflexivity. rewrite M5.
         assert (Z : wb (m y) =? 0 = false) by (clear - Hpos; lia). rewrite Z. cbn [andb].
@@ -698,8 +710,9 @@ Section ErrFlush.
       destruct (poll_request c x1) as [x2 u].
       set (x3 := if sd then do_ev c EvEof (wake (tgt_task (m x2)) x2) else x2).
       destruct (resp_flush_loop_P3 c F F x3) as [_ Hfail].
-      destruct (resp_flush_loop c F F x3) as [x4 fail]. cbn [snd] in Hfail.
+      destruct (resp_flush_loop c F F x3) as [x4r fail]. cbn [snd] in Hfail.
       destruct Hfail as [->| ->]; [|intro H; inversion H].
+      set (x4 := if c_fix28 c then (if rd_disc (m x4r) then x4r else do_ev c EvNeedRead x4r) else x4r).
       set (none := match state (m x4) with SNone => true | _ => false end).
       set (x5 := if rd_disc (m x4) && none then set_shut_err true (err x4) x4 else x4).
       assert (M5 : m x5 = m x4) by (unfold x5; destruct (rd_disc (m x4) && none); reflexivity).
@@ -712,3 +725,91 @@ Section ErrFlush.
         * intro H. inversion H.
   Qed.
 End ErrFlush.
+
+Section Wake28.
+  Variable c : cfg.
+  Variable F : nat.
+
+  (* (1') NO LOST WAKE-UP, generalised repair (self-wake whenever the decode gate was closed when
+     poll_request ran and is open at the end of the poll while read_buf is not empty).
+     For EVERY poll of the composer that returns Pending, whatever closed the gate at the top
+     (full queue, paused payload, ...): a decodable message behind open gates implies that the
+     task has woken itself.  No premise on the payload status. *)
+  Theorem no_lost_decode_wake_general x r x' :
+    c_fix28 c = true -> 0 < c_maxb c ->
+    shut x = false -> cpl (m x) <> Some 0 -> Forall pos_head (todo x) ->
+    poll c F x r = (x', PPend) -> bad x' = false ->
+    stall_source c x' = true -> o_wake x' = true.
+  Proof.
+    intros H28 Hmaxb Hshut Hcpl Hpos Hpoll Hbad Hstall.
+    unfold poll in Hpoll. fold (env x r) in Hpoll.
+    change (shut (env x r)) with (shut x) in Hpoll. rewrite Hshut in Hpoll.
+    unfold poll_normal in Hpoll.
+    destruct (c_fix28 c); [|discriminate H28]. cbv beta iota in Hpoll.
+    pose proof (read_available_same0 c (env x r)) as S0.
+    destruct (read_available_c c (env x r)) as [x1 sd]. cbn [fst] in S0.
+    destruct S0 as (C1&T1&Sh1&_).
+    destruct (poll_request_P3 c x1) as [P12 Hopen]. cbn zeta in P12, Hopen.
+    destruct (poll_request c x1) as [x2 u]. cbn [fst] in P12, Hopen.
+    set (x3 := if sd then do_ev c EvEof (wake (tgt_task (m x2)) x2) else x2) in *.
+    assert (P23 : P3 c x2 x3).
+    { unfold x3. destruct sd; [|apply P3_refl].
+      eapply P3_trans; [|apply do_eof_P3]. apply same_P3.
+      apply same_ext with (y := x2); [apply same_refl|reflexivity..]. }
+    destruct (resp_flush_loop_P3 c F F x3) as [P34 Hfail].
+    destruct (resp_flush_loop c F F x3) as [x4r fail]. cbn [fst snd] in P34, Hfail.
+    destruct Hfail as [->| ->]; [|inversion Hpoll].
+    set (x4 := if rd_disc (m x4r) then x4r else do_ev c EvNeedRead x4r) in *.
+    assert (S44 : same x4r x4).
+    { unfold x4. destruct (rd_disc (m x4r)); [apply same_refl|apply same_do_ev; reflexivity]. }
+    assert (P24 : P3 c x2 x4) by (eapply P3_trans; [exact P23|eapply P3_trans; [exact P34|apply same_P3, S44]]).
+    assert (P14 : P3 c x1 x4) by (eapply P3_trans; [exact P12|exact P24]).
+    destruct P14 as (HQ&HG&HP&HS). destruct P24 as (HQ24&_).
+    assert (G1 : G x1) by (right; rewrite C1; exact Hcpl).
+    assert (Pz1 : Forall pos_head (todo x1)) by (rewrite T1; exact Hpos).
+    assert (Sh4 : shut x4 = false) by (rewrite HS, Sh1; exact Hshut).
+    set (none := match state (m x4) with SNone => true | _ => false end) in *.
+    set (x5 := if rd_disc (m x4) && none then set_shut_err true (err x4) x4 else x4) in *.
+    assert (M5 : m x5 = m x4 /\ todo x5 = todo x4 /\ bad x5 = bad x4).
+    { unfold x5. destruct (rd_disc (m x4) && none); repeat split; reflexivity. }
+    destruct M5 as (M5&T5&B5).
+    destruct (none && (wb (m x5) =? 0) && err x5); [inversion Hpoll|].
+    destruct (none && (wb (m x5) =? 0) && shut x5) eqn:Esh.
+    - exfalso.
+      assert (Hs5 : shut x5 = true) by (destruct (shut x5); [reflexivity|rewrite andb_false_r in Esh; discriminate]).
+      assert (Hrd : rd_disc (m x4) = true).
+      { unfold x5 in Hs5. destruct (rd_disc (m x4) && none) eqn:E; [|congruence].
+        destruct (rd_disc (m x4)); [reflexivity|discriminate]. }
+      unfold poll_shutdown_branch, poll_flush_c in Hpoll.
+      pose proof (flush_loop_same c (S (length (wscript x5))) x5) as Sf.
+      destruct (flush_loop c (S (length (wscript x5))) x5) as [x6 fr]. cbn [fst] in Sf.
+      assert (x6 = x') by (destruct fr; inversion Hpoll; reflexivity). subst x6.
+      destruct Sf as (_&_&_&_&Rd&_). rewrite M5 in Rd. specialize (Rd Hrd).
+      rewrite stall_source_eq in Hstall. unfold can_read in Hstall. rewrite Rd in Hstall.
+      cbn [negb andb] in Hstall. rewrite andb_false_r in Hstall. discriminate.
+    - inversion Hpoll as [Hx']. clear Hpoll.
+      assert (Hm' : m x' = m x4 /\ todo x' = todo x4 /\ bad x' = bad x4).
+      { rewrite <- Hx'. cbn. rewrite M5, T5, B5. auto. }
+      destruct Hm' as (Mx&Tx&Bx).
+      assert (Hst4 : stall_source c x4 = true).
+      { rewrite stall_source_eq in *. unfold decodable in *. rewrite Mx, Tx in Hstall. exact Hstall. }
+      rewrite Bx in Hbad. rewrite stall_source_eq in Hst4.
+      apply andb_true_iff in Hst4 as [Hst4 Hdec]. apply andb_true_iff in Hst4 as [Hq4 Hcr4].
+      assert (Hnrd : rd_disc (m x4) = false).
+      { unfold can_read in Hcr4. destruct (rd_disc (m x4)); [discriminate|reflexivity]. }
+      assert (NQ4 : ~ Q c x4) by (intros [H|[H|H]]; congruence).
+      rewrite Hx'.
+      assert (Hw : o_wake x' = o_wake x5 || (shut x5 || (((c_maxp c <=? lenN (q (m x1))) || negb (can_read (m x1)))
+                     && ((lenN (q (m x5)) <? c_maxp c) && can_read (m x5)) && negb (rb (m x5) =? 0))))
+        by (rewrite <- Hx'; reflexivity).
+      rewrite Hw.
+      destruct ((c_maxp c <=? lenN (q (m x1))) || negb (can_read (m x1))) eqn:Egate.
+      + (* the decode gate was closed when poll_request ran: the repair's self-wake fires *)
+        assert (Hrb : (rb (m x4) =? 0) = false) by (apply (decodable_needs_bytes c); auto).
+        rewrite M5, Hq4, Hcr4, Hrb. cbn. rewrite !orb_true_r. reflexivity.
+      + (* the gate was open: a complete decode pass ran and nothing decodable can reappear *)
+        exfalso. apply NQ4, HQ24, Hopen.
+        * destruct (c_maxp c <=? lenN (q (m x1))); [discriminate|reflexivity].
+        * destruct (can_read (m x1)); [reflexivity|rewrite orb_true_r in Egate; discriminate].
+  Qed.
+End Wake28.
